@@ -72,3 +72,26 @@ def solve(c, velocity=None, build_kw=None, **solve_kw):
 def last(name):
     xs = stubs.CAP.get(name, [])
     return xs[-1] if xs else None
+
+
+def kkt_zero_residual(env, cap, z):
+    """Lemma chain: a KKT point x (x >= 0, g = A^T(Ax-b) >= 0, x.g = 0) of a problem that has a non-negative exact
+    solution z has zero residual.  Each lemma is decided by the solver on its own, in this order, and then available
+    to the next (cut, encoding rule 5).  Returns [] in concrete mode."""
+    if env.mode != "sym" or "r" not in cap:
+        return []
+    A = np.asarray(cap["A"], dtype=object)
+    b = list(cap["b"])
+    x, r, g = cap["x"], cap["r"], cap["g"]
+    m, n = A.shape
+    h = [sum((A[i, j] * z[j] for j in range(1, n)), A[i, 0] * z[0]) - b[i] for i in range(m)]
+    L = []
+    L += [env.eq(h[i], 0) for i in range(m)]                     # z solves the system exactly
+    L += [z[j] >= 0 for j in range(n)]
+    L += [z[j] * g[j] >= 0 for j in range(n)]                    # sign lemma (z >= 0, g >= 0)
+    L += [r[i] * h[i] <= 0 for i in range(m)]
+    L += [r[i] * h[i] >= 0 for i in range(m)]
+    # (x - z).g = |r|^2 - r.h is an identity in the definitions of r and g; with x.g = 0, z.g >= 0, r.h = 0:
+    L += [sum((r[i] * r[i] for i in range(1, m)), r[0] * r[0]) <= 0]
+    L += [env.eq(r[i], 0) for i in range(m)]
+    return L
